@@ -24,6 +24,8 @@ SETS = {
     "three quic: empty, one-byte and two-byte cids": [conn("quic", (1, 40000), (2, 443), odcid="<<7,1>>", ccid="<<>>", scid="<<9>>"),
                                                       conn("quic", (1, 40001), (2, 443), odcid="<<7,2>>", ccid="<<9>>", scid="<<>>"),
                                                       conn("quic", (4, 40000), (2, 443), odcid="<<7,3>>", ccid="<<9,9>>", scid="<<9,9>>")],
+    "quic whose new cid extends its old cid (prefix within one side)": [conn("quic", (1, 40000), (2, 443), odcid="<<7,1>>", ccid="<<1,1>>", scid="<<5,5>>", ncid="<<5,5,6>>"),
+                                                                       conn("quic", (1, 40001), (2, 443), odcid="<<7,2>>", ccid="<<2>>", scid="<<5>>")],
 }
 
 
